@@ -1,0 +1,16 @@
+//go:build verif
+
+package detector
+
+import "github.com/makiuchi-d/gozxing"
+
+// Re-exports of unexported Detector steps for the verification harness (/verif, property C06).
+// Nothing here changes behaviour; the file is compiled only with -tags verif.
+
+func (this *Detector) VerifTransitionsBetween(from, to gozxing.ResultPoint) int {
+	return this.transitionsBetween(from, to)
+}
+
+func (this *Detector) VerifCorrectTopRight(points []gozxing.ResultPoint) gozxing.ResultPoint {
+	return this.correctTopRight(points)
+}
